@@ -105,8 +105,9 @@ impl Backoff {
         if self.value > self.config.max_value {
             self.value = self.config.max_value;
         } else if self.value < self.config.max_value {
+            // Never exceed the configured maximum, not even until the next call.
             let increment = self.random_increment();
-            self.value += increment;
+            self.value = (self.value + increment).min(self.config.max_value);
         }
 
         // Reset backoff after we've waited long enough.
